@@ -4,6 +4,7 @@ package checks
 import (
 	"bytes"
 	"fmt"
+	"path/filepath"
 	"reflect"
 	"runtime"
 	"sort"
@@ -224,3 +225,10 @@ func (a *featAcc) merge(src map[string]int) {
 
 // Registry of checks.
 var Registry = map[string]func(*Env){}
+
+func monRoot() string { return mon.Root }
+
+func globLogs(dir string) []string {
+	m, _ := filepath.Glob(filepath.Join(dir, "race*"))
+	return m
+}
